@@ -123,9 +123,8 @@ def selector_grammar(ctx, rule=None):
 
 
 def run(ctx):
-    from .configtime import no_lazily_filled_attributes as _no_lazy, no_state_outside_objects as _no_state2
-    _no_lazy(ctx, 'C13.R3', ('Slicer', 'PlateSlicer', 'Plate'))
-    _no_state2(ctx, 'C13.R3', classes=('Slicer', 'PlateSlicer', 'Plate'))
+    from .configtime import derived_values as _derived
+    _derived(ctx, 'C13.R3', ('Slicer', 'PlateSlicer', 'Plate'))
     from .configtime import no_identity_test_against_literals as _no_is_literal
     _no_is_literal(ctx, 'C13.R3', classes=('Slicer', 'PlateSlicer', 'Plate'))
     from .configtime import no_shared_mutable_defaults as _mutdef, selection_not_changed_in_place as _sel_inplace
